@@ -282,6 +282,44 @@ func C20(p *core.Program, r *core.Report) {
 		cost := core.CallArgs(c)[2]
 		ok := false
 		detail := ""
+		// the cost computation extracted into a helper f(now, timestamp): check the shape inside the helper
+		// and that its arguments are the current time and the link's timestamp
+		if hc, isCall := cost.(*ssa.Call); isCall {
+			if f := hc.Common().StaticCallee(); f != nil && core.IsRepo(f) && f.Blocks != nil && len(f.Params) == 2 {
+				nowArg, isNow := hc.Common().Args[0].(*ssa.Call)
+				okNow := isNow && core.NameIs(core.CalleeName(nowArg), bp7+".DtnTimeNow")
+				okZero, okDiff := false, false
+				for _, rv := range core.ReturnValues(f, 0) {
+					if k, isC := core.ConstInt(rv.V); isC && k == 0 {
+						cs := core.DominatingConds(rv.At.Block())
+						if ifi, ok := rv.At.(*ssa.If); ok {
+							cs = append(cs, core.Cond{V: ifi.Cond, True: true, If: ifi})
+						}
+						for _, cd := range cs {
+							if b, isB := cd.V.(*ssa.BinOp); isB && b.Op == token.EQL && cd.True && b.X == ssa.Value(f.Params[1]) {
+								if z, isC := core.ConstInt(b.Y); isC && z == 0 {
+									okZero = true
+								}
+							}
+						}
+						// phi edge from the branch block itself
+						if blk := rv.At.Block(); !okZero {
+							if ifi, ok := blk.Instrs[len(blk.Instrs)-1].(*ssa.If); ok {
+								if b, isB := ifi.Cond.(*ssa.BinOp); isB && b.Op == token.EQL && b.X == ssa.Value(f.Params[1]) {
+									okZero = true
+								}
+							}
+						}
+						continue
+					}
+					if sub, isSub := core.Strip(rv.V).(*ssa.BinOp); isSub && sub.Op == token.SUB && sub.X == ssa.Value(f.Params[0]) && sub.Y == ssa.Value(f.Params[1]) {
+						okDiff = true
+					}
+				}
+				ok = okNow && okZero && okDiff
+				detail = fmt.Sprintf("helper %s: first argument is DtnTimeNow(): %v, returns 0 on timestamp==0: %v, otherwise now-timestamp: %v", f.Name(), okNow, okZero, okDiff)
+			}
+		}
 		if phi, isPhi := cost.(*ssa.Phi); isPhi && len(phi.Edges) == 2 {
 			var zeroPred, diffPred *ssa.BasicBlock
 			var diff ssa.Value
@@ -320,7 +358,7 @@ func C20(p *core.Program, r *core.Report) {
 	// ---- (5) AT
 	g := newGuardedEngine(p)
 	n := g.checkGuarded(r, dtlsrGuarded, false)
-	r.Min("accesses to DTLSR state", 30)
+	r.Min("accesses to DTLSR state", 20)
 	r.Count("accesses to DTLSR state", n)
 }
 
